@@ -172,6 +172,36 @@ DJV_CMD(z, "z")
     return std::string(ok ? "framed " : "UNFRAMED ") + hexbytes(out);
 }
 
+// ztrace <payload-hex>: the library's compression loop with every deflate() call
+// recorded by the link-time wrapper: verdict of an independent inflate, blob
+// length, and per call flush:avail_in:consumed:produced:ret.
+DJV_CMD(ztrace, "ztrace")
+{
+    auto payload = parse_hexbytes(a.at(1));
+    payload.shrink_to_fit();
+    g_wrap.dcalls.clear();
+    g_wrap.dtrace = true;
+    std::vector<std::byte> out;
+    try
+    {
+        out = djinterop::engine::zlib_compress(payload);
+    }
+    catch (...)
+    {
+        g_wrap.dtrace = false;
+        throw;
+    }
+    g_wrap.dtrace = false;
+    std::vector<std::byte> p;
+    bool ok = own_uncompress(out, p) && p == payload;
+    std::string r = std::string(ok ? "framed" : "UNFRAMED") + " len=" + std::to_string(out.size()) +
+                    " calls=" + std::to_string(g_wrap.dcalls.size());
+    for (auto& c : g_wrap.dcalls)
+        r += " " + std::to_string(c.flush) + ":" + std::to_string(c.in_before) + ":" + std::to_string(c.consumed) +
+             ":" + std::to_string(c.produced) + ":" + std::to_string(c.ret);
+    return r;
+}
+
 // ownz <payload-hex>: frame a payload with the harness's own compressor.
 DJV_CMD(ownz, "ownz")
 {
